@@ -374,8 +374,13 @@ class TrajectoryCalc:
         # region Trajectory Loop
         warnings.simplefilter("once")  # used to avoid multiple warnings in a loop
         it = 0  # iteration counter
-        while range_vector.x <= maximum_range + min_step:
+        # last_x: down-range position of the last point handed to the data filter.  The loop must not stop before a
+        # point at or beyond maximum_range has been seen by the filter, even if one step (e.g. with a tail wind)
+        # carries the projectile over the whole [maximum_range, maximum_range + min_step] window.
+        last_x = range_vector.x
+        while range_vector.x <= maximum_range + min_step or last_x < maximum_range:
             it += 1
+            last_x = range_vector.x
             data_filter.clear_current_flag()
 
             # Update wind reading at current point in trajectory
